@@ -30,22 +30,28 @@ SPEC = {
         'prep_tree_spec rests on the FAT tree model proved under C04 (nobodd/fs.py, nobodd/path.py): here only observed',
     ],
     'theorems': {
-        'C17_split_spec': 'full (split_ws = the unique tokenisation: maximal white-space-free runs)',
+        'C17_split_spec': 'full (str.split() = the unique tokenisation into maximal white-space-free runs)',
         'C17_split_words_clean': 'full', 'C17_split_concat': 'full',
         'C17_first_line_spec': 'full',
-        'C17_cmdline_spec': 'full (all texts, hosts, shares, partition numbers)',
+        'C17_cmdline_spec': 'full (all texts, hosts, shares, partition numbers; Unicode white space included)',
+        'C17_cmdline_spec_total': 'full (exactly one first line and one word list per text)',
+        'C17_partition_decimal': 'full (decimal digits, reads back as n, no leading zero)',
         'C17_cmdline_filter': 'full (no root= word survives, every other word survives, order kept)',
-        'C17_cmdline_reapply': 'full: a second run keeps the result except that "ip=dhcp nbdroot=H/S" is repeated '
-                               'after the three leading parameters (white-space-free host/share)',
-        'C17_cmdline_not_idempotent': 'full (exists-witness): the rewrite is NOT a fixpoint on its own output; '
-                                      'the property text does not require it',
-        'C17_serial_roundtrip': 'full (any case, any number of leading zeros, surrounding white space)',
-        'C17_serial_show': 'full (serial (hex n) = n)',
-        'C17_serial_prefix': 'full (10000000/00000000 + >= 8 hex digits -> value of the rest)',
+        'C17_cmdline_reapply': 'full: a second run keeps every parameter and repeats "ip=dhcp nbdroot=H/S" after the '
+                               'three leading ones (white-space-free host/share)',
+        'C17_cmdline_not_idempotent': 'full (witness): the rewrite is NOT a fixpoint on its own output; the property '
+                                      'text does not ask for idempotence, so this is recorded, not reported',
+        'C17_serial_roundtrip': 'full (hex digits in either case, any number of leading zeros, white space around)',
+        'C17_serial_show': 'full (serial (hex n) = n, lower and upper case, leading zeros)',
+        'C17_serial_prefix': 'full (10000000/00000000 + 8 hex digits -> the low 32 bits)',
         'C17_serial_range': 'full (accepted => 0..0xFFFFFFFF; too large => ValueError)',
-        'C17_board_roundtrip': 'full under the boolean guard path_ok (absolute, no CR/LF, no trailing white space)',
-        'C17_remove_order_children_first': 'fact regenerated from remove_items (children before parents)',
-        'C17_open_file_names_bound': 'fact regenerated from tools.py (open_file uses only bound names)',
+        'C17_board_text': 'full (text of str(board) + newline)',
+        'C17_board_roundtrip': 'full under the boolean guard path_ok (absolute, no CR/LF, no trailing white space); '
+                               'the reader is a SPEC of configparser+Board.from_section compared with the real one',
+        'C17_prep_wiring': 'facts regenerated from source (Board(...) arguments, image.resolve(), parser options)',
+        'C17_open_file_names_bound': 'fact regenerated from tools.py (open_file uses only names the module binds)',
+        'C17_remove_order_children_first': 'fact regenerated from remove_items (collected directories removed in '
+                                           'reverse rglob order)',
         'prep_tree_spec': 'oracle/correspondence only (partial): the FAT tree model is proved under C04',
     },
     'assumptions': [
@@ -55,6 +61,11 @@ SPEC = {
         'image path: absolute after resolve(), free of CR/LF and trailing white space (guard path_ok); other paths are '
         'not read back identically by configparser (value is stripped / split at line breaks)',
         'root partition number >= 0',
+        'FatPath.rglob yields a directory before its content (checked on a sample tree on every run); the removal-order '
+        'fact relies on it',
+        'generator keeps away from defects of nobodd/fs.py / path.py owned by C04/C10 (mkdir does not zero the new '
+        'cluster: files removed/overwritten before a directory is created get zero content); C17_NO_AVOID=1 disables',
+        'FAT names compare case-insensitively (trees are compared on case-folded paths)',
     ],
 }
 
@@ -250,7 +261,7 @@ def corr_int_serial(ctx, R):
              '10000000' * 2, '00000000' * 3, '1000000000000000', '100000000', 'ffffffff', 'FFFFFFFF', '100000000',
              '-0', '+0', '0000000000000000', '00000000', '10000000', '1000000012345678', '0000000012345678',
              '10000000123456789', '100000000x1f', '00000000_1f', '0000000000000-1f', '10000000+1234567']
-    for base in (16, 10):
+    for base in ((16, 10) if R is not None else ()):
         rs = R.batch('pyint', [(base, s) for s in strs])
         for s, r in zip(strs, rs):
             m = R.unres(r)
@@ -258,7 +269,7 @@ def corr_int_serial(ctx, R):
             ctx.case(('int', base, s), len(s) > 1, f'int-base{base}')
             if got != m:
                 ctx.violation('model/int', f'int({s!r}, {base}) = {got} but model says {m}', dict(api='pyint', base=base, s=s))
-    rs = R.batch('serial', strs)
+    rs = R.batch('serial', strs) if R is not None else []
     for s, r in zip(strs, rs):
         m = R.unres(r)
         got = impl_call(config.serial, s)
@@ -275,16 +286,11 @@ def corr_int_serial(ctx, R):
             if got != ('ok', want):
                 ctx.violation('config.serial/spelling', f'serial({sp!r}) = {got}, expected {want:#x}',
                               dict(api='serial-oracle', s=sp, expected=want))
-    for s in ['100000000', 'fffffffff', '-1', '1000000100000000', '2000000012345678']:
+    # out of range: too large, negative, 16 digits without one of the two prefixes
+    for s in ['100000000', 'fffffffff', '-1', '1000000100000000', '2000000012345678', '123456789abcdef0']:
         got = impl_call(config.serial, s)
         ctx.case(('serial-range', s), True, 'serial-oracle')
-        if s == '2000000012345678':
-            ok = got == ('err', 'ValueError')
-        elif s == '1000000100000000':
-            ok = got == ('err', 'ValueError')
-        else:
-            ok = got == ('err', 'ValueError')
-        if not ok:
+        if got != ('err', 'ValueError'):
             ctx.violation('config.serial/range', f'serial({s!r}) = {got}, expected ValueError', dict(api='serial-range', s=s))
     ctx.sample(dict(api='serial', s='10000000DEADbeef', result=0xdeadbeef))
 
@@ -340,8 +346,13 @@ def corr_board(ctx, R, tmp):
         part = rng.choice([1, 2, 5, 9, 10, 128, rng.randrange(1000)])
         pp = Path(p)
         text = str(Board(n, pp, part, None)) + '\n'
-        m = T(R.call('board_conf', (n, str(pp), part)))
-        guard = R.call('path_ok', str(pp)) == 1
+        sp = str(pp)
+        guard = sp[:1] == '/' and '\n' not in sp and '\r' not in sp and not sp[-1:].isspace()
+        m = text
+        if R is not None:
+            m = T(R.call('board_conf', (n, sp, part)))
+            if (R.call('path_ok', sp) == 1) != guard:
+                ctx.violation('model/path_ok', f'path_ok({sp!r}) disagrees with its specification', dict(api='path_ok', path=sp))
         ctx.case(('board_str', n, p, part), True, 'board-text')
         if m != text:
             ctx.violation('model/Board.__str__', f'str(Board({n:#x}, {p!r}, {part})) = {text!r}, model {m!r}',
@@ -354,7 +365,7 @@ def corr_board(ctx, R, tmp):
             variants.append(f'[board:{hx}]\nimage =\t{p}\n')
             variants.append(f'[board:{hx}]\npartition = 3\nimage = /x\nimage = {p}\npartition = {part}\n')
         for v in variants:
-            mr = R.call('read_board', v)
+            mr = R.call('read_board', v) if R is not None else None
             got = impl_call(server_boards, v, tmp)
             ctx.case(('read_board', v), True, 'board-readback' if mr else 'board-readback-unmodelled')
             if mr:
@@ -389,7 +400,7 @@ def corr_rewrite(ctx, R):
     args = []
     for i, t in enumerate(texts):
         args.append((rng.choice(hosts), rng.choice(names), rng.choice([0, 1, 2, 2, 5, 10, 128, 4096]), t))
-    ms = R.batch('rewrite', args)
+    ms = R.batch('rewrite', args) if R is not None else [None] * len(args)
     for i, ((host, name, rootp, t), m) in enumerate(zip(args, ms)):
         if i % 200 == 0:
             if fs is not None:
@@ -407,7 +418,7 @@ def corr_rewrite(ctx, R):
             got = ('ok', f.read_bytes().decode('utf-8'))
         nt = 'root=' in t or any(ch.isspace() for ch in t)
         ctx.case(('rewrite', host, name, rootp, t), nt, 'rewrite_cmdline')
-        if got != ('ok', T(m)):
+        if m is not None and got != ('ok', T(m)):
             ctx.violation('model/rewrite_cmdline',
                           f'rewrite_cmdline on {t!r} ({host}/{name}, p{rootp}) wrote {got}, model says {T(m)!r}',
                           dict(api='rewrite', text=t, host=host, name=name, root=rootp))
@@ -430,6 +441,7 @@ GPT_ESP = 'c12a7328-f81f-11d2-ba4b-00a0c93ec93b'
 GPT_LINUX = '0fc63daf-8483-4772-8e79-3d69d8477de4'
 GPT_FAT_TYPES = {GPT_BASIC, GPT_ESP}
 SS = 512
+ROOT_ENTRIES = 256
 
 
 def data_of(spec):
@@ -497,7 +509,7 @@ def build_image(case):
             img[a + 510:a + 512] = b'\0\0'
         else:
             f = p['fat']
-            vol = mkfat.mkfat(f['type'], f['clusters'], spc=f['spc'])
+            vol = mkfat.mkfat(f['type'], f['clusters'], spc=f['spc'], root_entries=ROOT_ENTRIES)
             assert len(vol) == n, (len(vol), n)
             img[a:a + n] = vol
     if case['style'] == 'mbr':
@@ -937,9 +949,10 @@ def gen_case(rng, force=None):
     style = force.get('style') or rng.choice(['mbr', 'gpt'])
     ft = force.get('fat') or rng.choice(['fat12', 'fat16', 'fat32'])
     spc = rng.choice([1, 2, 4]) if ft != 'fat32' else rng.choice([1, 2])
-    clusters = {'fat12': rng.randrange(150, 500), 'fat16': rng.randrange(300, 700), 'fat32': rng.randrange(300, 700)}[ft]
+    # roomy volumes: the property is not about a full disk (and allocation on a nearly full volume is C10's business)
+    clusters = {'fat12': rng.randrange(500, 1000), 'fat16': rng.randrange(600, 1000), 'fat32': rng.randrange(600, 1000)}[ft]
     fat = {'type': ft, 'clusters': clusters, 'spc': spc}
-    fat_sectors = len(mkfat.mkfat(ft, clusters, spc=spc)) // SS
+    fat_sectors = len(mkfat.mkfat(ft, clusters, spc=spc, root_entries=ROOT_ENTRIES)) // SS
     cluster = spc * SS
     layout = rng.choice(['FR', 'FR', 'FR', 'RF', 'FRf', 'FMR', 'RFR'] + (['F[R]', '[R]F', 'F[RR]'] if style == 'mbr' else ['F-R', '-FR']))
     parts = []
@@ -980,7 +993,7 @@ def gen_case(rng, force=None):
             main_fat_done = True
         elif ch == 'f':
             f2 = {'type': 'fat12', 'clusters': rng.randrange(40, 90), 'spc': 1}
-            p.update(kind='fat', fat=f2, sectors=len(mkfat.mkfat('fat12', f2['clusters'], spc=1)) // SS,
+            p.update(kind='fat', fat=f2, sectors=len(mkfat.mkfat('fat12', f2['clusters'], spc=1, root_entries=ROOT_ENTRIES)) // SS,
                      tree=[['f', 'other.txt', {'seed': rng.randrange(1 << 30), 'len': 700}], ['d', 'keep'],
                            ['f', 'keep/cmdline.txt', {'text': 'root=/dev/sda1 untouched'}]])
             p['type'] = 0x0C if style == 'mbr' else GPT_BASIC
@@ -1112,6 +1125,19 @@ def gen_case(rng, force=None):
     if rng.random() < 0.03:
         args['copy'] = args['copy'] + ['does-not-exist']
         case['expect_error'] = 'item to copy does not exist'
+    if force.get('scenario') == 'deep-remove-stdout':
+        # always exercised: removal of a tree four levels deep, both configurations on stdout, prefixed serial
+        tree[:] = [e for e in tree if not e[1].lower().startswith('deep')]
+        tree += [['d', 'deep'], ['d', 'deep/l2'], ['d', 'deep/l2/l3'], ['d', 'deep/l2/l3/l4'],
+                 ['f', 'deep/l2/l3/l4/leaf.bin', {'zero': 700}], ['f', 'deep/l2/top.txt', {'zero': 3}], ['d', 'deep/l2/empty']]
+        args['remove'] = ['deep'] + [r for r in removes if not r.lower().startswith('deep')]
+        args['tftpd_conf'] = args['nbd_conf'] = '-'
+        args['serial'] = '10000000%08x' % sn
+        case['serial_value'] = sn
+        case.pop('expect_error', None)
+        if args['root'] is None and exp_root is None:
+            args['root'] = 2
+        args['copy'] = [c for c in args['copy'] if c != 'does-not-exist']
     if AVOID_FS_DEFECTS:
         avoid_fs_defects(case, cluster)
     return case
@@ -1148,7 +1174,7 @@ def avoid_fs_defects(case, cluster):
             e[2] = {'zero': ln}
 
 
-def shrink(case, sig, R, budget=60):
+def shrink(case, sig, R, budget=80):
     """greedy reduction of a failing case that keeps the signature"""
     def fails(c):
         try:
@@ -1172,9 +1198,17 @@ def shrink(case, sig, R, budget=60):
                 if key == 'serial':
                     c['serial_value'] = None
                 cands.append(c)
+        if a['image_name'] != 'disk.img':
+            c = copy.deepcopy(cur); c['args']['image_name'] = 'disk.img'
+            c['args']['image_arg'] = os.path.join('img dir', 'disk.img'); cands.append(c)
+        if a['nbd_host'] != 'server':
+            c = copy.deepcopy(cur); c['args']['nbd_host'] = 'server'; cands.append(c)
         for pi, p in enumerate(cur['parts']):
             if p['kind'] != 'fat':
                 continue
+            for i, e in enumerate(p['tree']):
+                if e[0] == 'f' and e[2].get('text') not in (None, 'quiet'):
+                    c = copy.deepcopy(cur); c['parts'][pi]['tree'][i][2] = {'text': 'quiet'}; cands.append(c)
             paths = [e[1] for e in p['tree']]
             for i in reversed(range(len(p['tree']))):
                 e = p['tree'][i]
@@ -1203,14 +1237,14 @@ def shrink(case, sig, R, budget=60):
 
 def oracle_e2e(ctx, R):
     rng = ctx.rng
-    n = 900 if ctx.thorough else 160
+    n = 5000 if ctx.thorough else 500
     if ctx.widen:
         n = max(n, 500)
     combos = [(s, f) for s in ('mbr', 'gpt') for f in ('fat12', 'fat16', 'fat32')]
     reported = set()
     for i in range(n):
         style, ft = combos[i % len(combos)]
-        case = gen_case(rng, dict(style=style, fat=ft))
+        case = gen_case(rng, dict(style=style, fat=ft, scenario='deep-remove-stdout' if i < len(combos) else None))
         a = case['args']
         try:
             findings, info = eval_case(case, R)
@@ -1244,21 +1278,52 @@ def oracle_e2e(ctx, R):
                     image='GPT, FAT16 boot partition with a 4-deep tree + raw partition'))
 
 
+def corr_rglob_order(ctx):
+    """assumption behind remove_dirs_children_first: rglob lists a directory before its content"""
+    from nobodd.fs import FatFileSystem
+    for ft in ('fat12', 'fat16', 'fat32'):
+        img = mkfat.mkfat(ft, 400, spc=2)
+        with FatFileSystem(memoryview(img)) as fs:
+            for d in ('a', 'a/b', 'a/b/c', 'a/b/c/d', 'a/x', 'a/x/y', 'a/b/k'):
+                (fs.root / d).mkdir()
+            for f in ('a/f1', 'a/b/f2', 'a/b/c/d/f3', 'a/x/y/f4'):
+                (fs.root / f).write_bytes(b'z')
+            seen, ok = set(), True
+            for p in (fs.root / 'a').rglob('*'):
+                parent = str(p.parent)
+                if parent != '/a' and parent not in seen:
+                    ok = False
+                seen.add(str(p))
+            ctx.case(('rglob-order', ft), True, 'rglob-preorder')
+            if not ok or len(seen) != 10:
+                ctx.violation('assumption/rglob-preorder', f'rglob on {ft} does not list parents first / misses items: {sorted(seen)}',
+                              dict(api='rglob-order', fat=ft))
+
+
 def run(ctx, build):
     warnings.simplefilter('ignore')
     import locale
     enc = locale.getencoding()
     if enc.lower().replace('-', '') != 'utf8':
         raise lib.BuildError(f'locale encoding is {enc}; the check needs UTF-8 (set PYTHONUTF8=1)')
-    R = ctx.runner('Prep')
+    # when the model no longer builds (translator failed closed / Gen changed shape) the oracle
+    # parts still run against the implementation alone, so that a concrete failing input is found
+    try:
+        R, broken = ctx.runner('Prep'), None
+    except lib.BuildError as exc:
+        R, broken = None, exc
     tmp = tempfile.mkdtemp(prefix='c17-')
     try:
-        corr_whitespace(ctx, R)
-        corr_text(ctx, R)
+        if R is not None:
+            corr_whitespace(ctx, R)
+            corr_text(ctx, R)
         corr_int_serial(ctx, R)
         corr_board(ctx, R, tmp)
         corr_rewrite(ctx, R)
+        corr_rglob_order(ctx)
         oracle_e2e(ctx, R)
+        if broken is not None:
+            raise broken
     finally:
         shutil.rmtree(tmp, ignore_errors=True)
 
